@@ -53,6 +53,9 @@ def ops_for(p):
         out += [("bool", "b", True), ("bool", "a", False), ("selected", "C")]
     if kind not in ("light",):
         out += [("cwrite", "A", 0), ("cwrite", "B", 1)]
+    if kind == "number":
+        # one submit naming a valid element and one whose value cannot be applied: what was applied must be published
+        out += [("cwrite-partly-bad",)]
     return out
 
 
@@ -137,6 +140,14 @@ class Run:
                 self.client.handshake("DEV0")
             else:
                 self.client.handshake()
+        elif o == "cwrite-partly-bad":
+            d = self.client.get_device("DEV0")
+            cv = d.get_vector("TGT") if d else None
+            if cv is None or cv.get_element("A") is None or cv.get_element("B") is None:
+                return "skipped"
+            cv["A"].value = "42.5"
+            cv["B"].value = "9" * 400
+            cv.submit()
         elif o == "cwrite":
             d = self.client.get_device("DEV0")
             cv = d.get_vector("TGT") if d else None
@@ -377,7 +388,7 @@ def run_shard(shard):
             if len(path) >= depth:
                 continue
             for op in allops:
-                if snoop and op[0] == "cwrite":
+                if snoop and op[0].startswith("cwrite"):
                     continue
                 newpath = list(path) + [op]
                 fails, c, info = run_history(p, newpath, snoop)
